@@ -1,6 +1,7 @@
 package c09
 
 import (
+	"context"
 	"fmt"
 	"reflect"
 	"runtime"
@@ -44,8 +45,10 @@ const (
 	badQuery1 = "SELECT (a, b), ARRAY[1, 2], arr[1:2], arr[3] FROM"
 	badQuery2 = "SELECT (a, ARRAY[1, (2, 3)], arr[1], ) FROM t"
 	// recovery: the second statement fails after taking pooled nodes, the first and third succeed
-	recoverQuery = "SELECT (a, b), ARRAY[1] FROM t; SELECT (c, d), ARRAY[2] FROM WHERE; SELECT ARRAY[1, 2], (e, f), arr[1] FROM t"
-	tokenQuery   = "SELECT a, 'str', \"q\", 1.5 /* block */ FROM t -- line\nWHERE (a, b) IN ((1, 2))"
+	recoverQuery  = "SELECT (a, b), ARRAY[1] FROM t; SELECT (c, d), ARRAY[2] FROM WHERE; SELECT ARRAY[1, 2], (e, f), arr[1] FROM t"
+	tokenQuery2   = "UPDATE u SET x = 'other', y = 2.5 WHERE \"z\" IN (7, 8, 9) -- two\n"
+	tokenErrQuery = "SELECT a1, a2, a3, a4, a5, a6, a7, a8, a9, a10, a11, a12, a13, a14, a15, a16, a17, a18, a19, a20, a21, a22, a23, a24, a25, a26, a27, a28, a29, a30, a31, a32, a33, a34, a35, a36, a37, a38, a39, a40 FROM t WHERE b = 'unterminated"
+	tokenQuery    = "SELECT a, 'str', \"q\", 1.5 /* block */ FROM t -- line\nWHERE (a, b) IN ((1, 2))"
 )
 
 // held is a value the library handed to the harness and the harness has not released.
@@ -294,6 +297,31 @@ func buildOps() []op {
 			var cm []models.Comment = tkz.Comments
 			h.hold(&held{kind: "comments", desc: "comments", val: cm, owner: tkz})
 		}},
+		// failing tokenizer calls through the pool (lexical error at the very end of a long input; cancelled context):
+		// whatever a failed call keeps in the instance must never become part of a later caller's result
+		op{name: "TE", class: "TokenizeError", run: func(h *histState) {
+			tkz := tokenizer.GetTokenizer()
+			if _, err := tkz.Tokenize([]byte(tokenErrQuery)); err == nil {
+				h.c.Outcome("bad-text-tokenized")
+			}
+			tokenizer.PutTokenizer(tkz)
+		}},
+		op{name: "TC", class: "TokenizeCancelled", run: func(h *histState) {
+			ctx, cancel := context.WithCancel(context.Background())
+			cancel()
+			tkz := tokenizer.GetTokenizer()
+			_, _ = tkz.TokenizeContext(ctx, []byte(tokenErrQuery))
+			tokenizer.PutTokenizer(tkz)
+		}},
+		// a complete borrow: tokens kept by the caller, tokenizer handed back at once
+		op{name: "T2", class: "TokenizeAndPut", run: func(h *histState) {
+			tkz := tokenizer.GetTokenizer()
+			toks, err := tkz.Tokenize([]byte(tokenQuery2))
+			tokenizer.PutTokenizer(tkz)
+			if err == nil {
+				h.hold(&held{kind: "tokens", desc: "tokens2", val: toks})
+			}
+		}},
 		op{name: "TP", class: "PutTokenizer", run: func(h *histState) {
 			for i, x := range h.held {
 				if x.kind == "comments" {
@@ -480,7 +508,7 @@ func runHistory(c *common.Ctx, ops []op, seq []int, targets []*cleanTarget, pool
 		h.acted = false
 		ops[k].run(h)
 		switch ops[k].name {
-		case "E1", "E2", "F", "FF", "V", "L":
+		case "E1", "E2", "F", "FF", "V", "L", "TE", "TC":
 			h.acted = true // library-internal work, nothing for the harness to hold
 		}
 		if !h.acted && !c.Enum().Replaying() {
